@@ -485,7 +485,7 @@ impl Property for C12 {
         1200
     }
     fn quick_cases(&self) -> u64 {
-        160_000
+        640_000
     }
     fn states_termination(&self) -> bool {
         // every operation of a finite history must return a result; the generator cannot loop
